@@ -118,6 +118,17 @@ Theorem C17_html_tree_has_no_removable_node :
 Proof. exact html_tree_no_removable. Qed.
 Print Assumptions C17_html_tree_has_no_removable_node.
 
+(* no cap on nesting: after any number of start tags of ordinary (non-void, non-removable) elements every one of them
+   is open on the stack and the builder is at a visible position - so C17_html_noninterference applies to a removable
+   element at ANY depth (a depth threshold in the code breaks the event-level correspondence at that depth) *)
+Theorem C17_html_no_depth_cap :
+  forall (remove void : list str) (tags : list str),
+    forallb (fun t => negb (mem_str t remove) && negb (mem_str t void)) tags = true ->
+    List.length (below (vis (html_build remove void (map (fun t => Start t []) tags)))) = List.length tags
+    /\ skipping (html_build remove void (map (fun t => Start t []) tags)) = false.
+Proof. exact html_no_depth_cap. Qed.
+Print Assumptions C17_html_no_depth_cap.
+
 (* ---- EPUB chapter machine (_XhtmlTextExtractor); normcell = whitespace normalisation oracle ---- *)
 
 Theorem C17_epub_noninterference :
